@@ -156,7 +156,8 @@ def clean_tmp_leaks():
     import glob
     for p in glob.glob("/tmp/gdl??????"):
         try:
-            if os.path.isfile(p):
+            # only files old enough that no concurrent compiler run can still be using them
+            if os.path.isfile(p) and time.time() - os.path.getmtime(p) > 300:
                 os.unlink(p)
         except OSError:
             pass
@@ -283,7 +284,7 @@ class Report:
         self.coverage = {}
         self.assumptions = []
         self.known = load_known()
-        self.replay_dir = os.path.join(VERIF, "replay")
+        self.replay_dir = os.path.join(VERIF, "replay_mut" if os.environ.get("VERIF_MUTANT") else "replay")
         os.makedirs(self.replay_dir, exist_ok=True)
 
     def match_known(self, signature):
@@ -323,8 +324,9 @@ class Report:
             "wall_s": round(time.time() - self.t0, 2),
             "violations": len(self.violations),
         }
-        os.makedirs(os.path.join(VERIF, "evidence"), exist_ok=True)
-        with open(os.path.join(VERIF, "evidence", self.pid + ".json"), "w") as f:
+        evdir = os.path.join(VERIF, "evidence_mut" if os.environ.get("VERIF_MUTANT") else "evidence")
+        os.makedirs(evdir, exist_ok=True)
+        with open(os.path.join(evdir, self.pid + ".json"), "w") as f:
             json.dump(ev, f, indent=1, default=str)
         for sig, what in self.known_hits:
             print("KNOWN-FINDING: property=%s %s [%s]" % (self.pid, what, sig))
